@@ -1,0 +1,174 @@
+//go:build verif
+
+package heap
+
+// Contracts for the deductive verifier in /verif (properties C05 and C15). Only part of the build
+// under the tag `verif`.
+//
+// Ghost state hangs off the indexChanged function value (it survives copying a Heap by value):
+//   N      last index notified for each key (keyOf is an arbitrary function of the element)
+//   tracks the heap claims N to be in sync with the positions (needs pairwise distinct keys)
+//   base, bn, gone, f, g   the bijection between the current array and a base sequence
+//   lo     ghost argument of percolateDown (parents below lo are not looked at)
+
+//@ sort HKey
+//@ ufun keyOf(x) HKey
+//@ ghost func.N gmap[HKey]int
+//@ ghost func.tracks bool
+//@ ghost func.base seq[T]
+//@ ghost func.bn int
+//@ ghost func.gone int
+//@ ghost func.f seq[int]
+//@ ghost func.g seq[int]
+//@ ghost func.lo int
+
+//@ pred swoF(less, s) = (forall a typeof(s[0]) {less(a, a)} :: !less(a, a))
+//@   && (forall a typeof(s[0]), b typeof(s[0]), c typeof(s[0]) {less(a, b), less(b, c)} :: less(a, b) && less(b, c) ==> less(a, c))
+//@   && (forall a typeof(s[0]), b typeof(s[0]), c typeof(s[0]) {less(a, b), less(b, c)} :: !less(a, b) && !less(b, c) ==> !less(a, c))
+//@ pred fns(h) = h.lessFn != nil && h.indexChanged != nil && swoF(h.lessFn, h.a)
+
+//@ pred ordAt(h, j) = !h.lessFn(h.a[j], h.a[(j-1)/2])
+//@ pred heapOK(h) = forall j int {h.a[j]} :: 0 < j && j < len(h.a) ==> ordAt(h, j)
+
+//@ pred mapsTo(h) = h.indexChanged.bn >= 0
+//@   && (forall k int {h.indexChanged.f[k]} :: 0 <= k && k < len(h.a) ==> 0 <= h.indexChanged.f[k] && h.indexChanged.f[k] < h.indexChanged.bn
+//@          && h.indexChanged.f[k] != h.indexChanged.gone && h.a[k] == h.indexChanged.base[h.indexChanged.f[k]] && h.indexChanged.g[h.indexChanged.f[k]] == k)
+//@   && (forall m int {h.indexChanged.g[m]} :: 0 <= m && m < h.indexChanged.bn && m != h.indexChanged.gone ==> 0 <= h.indexChanged.g[m] && h.indexChanged.g[m] < len(h.a)
+//@          && h.indexChanged.f[h.indexChanged.g[m]] == m)
+
+//@ pred syncedAll(h) = forall k int {h.a[k]} :: 0 <= k && k < len(h.a) ==> h.indexChanged.N[keyOf(h.a[k])] == k
+//@ pred synced(h) = h.indexChanged.tracks ==> syncedAll(h)
+//@ pred wfH(h) = fns(h) && heapOK(h) && synced(h)
+//@ pred same(h) = h.a == old(h.a) && h.lessFn == old(h.lessFn) && h.indexChanged == old(h.indexChanged) && h.gen == old(h.gen)
+
+//@ callback Heap.indexChanged(h, x, i)
+//@   modifies h.indexChanged.N
+//@   ghost h.indexChanged.N := store(h.indexChanged.N, keyOf(x), i)
+
+//@ func Heap.swap
+//@   props C05 C15
+//@   requires h.indexChanged != nil && 0 <= i && i < len(h.a) && 0 <= j && j < len(h.a) && mapsTo(h) && synced(h)
+//@   modifies elems(h.a), h.indexChanged.N, h.indexChanged.f, h.indexChanged.g
+//@   ghost h.indexChanged.f := store(store(old(h.indexChanged.f), i, old(h.indexChanged.f[j])), j, old(h.indexChanged.f[i]))
+//@   ghost h.indexChanged.g := store(store(old(h.indexChanged.g), old(h.indexChanged.f[i]), j), old(h.indexChanged.f[j]), i)
+//@   ensures h.a[i] == old(h.a[j]) && h.a[j] == old(h.a[i])
+//@   ensures forall k int {h.a[k]} :: 0 <= k && k < len(h.a) && k != i && k != j ==> h.a[k] == old(h.a[k])
+//@   ensures mapsTo(h) && synced(h)
+
+//@ func Heap.percolateDown
+//@   props C05 C15
+//@   requires 0 <= h.indexChanged.lo && h.indexChanged.lo <= i && fns(h) && mapsTo(h) && synced(h)
+//@   requires forall j int {h.a[j]} :: 0 < j && j < len(h.a) && (j-1)/2 >= h.indexChanged.lo && (j-1)/2 != i ==> ordAt(h, j)
+//@   requires i > 0 && (i-1)/2 >= h.indexChanged.lo ==> (forall c int {h.a[c]} :: 0 < c && c < len(h.a) && (c-1)/2 == i ==> !h.lessFn(h.a[c], h.a[(i-1)/2]))
+//@   modifies elems(h.a), h.indexChanged.N, h.indexChanged.f, h.indexChanged.g
+//@   loop 0: invariant i >= old(i) && same(h) && mapsTo(h) && synced(h)
+//@   loop 0: invariant forall j int {h.a[j]} :: 0 < j && j < len(h.a) && (j-1)/2 >= h.indexChanged.lo && (j-1)/2 != i ==> ordAt(h, j)
+//@   loop 0: invariant i > 0 && (i-1)/2 >= h.indexChanged.lo ==> (forall c int {h.a[c]} :: 0 < c && c < len(h.a) && (c-1)/2 == i ==> !h.lessFn(h.a[c], h.a[(i-1)/2]))
+//@   ensures same(h) && mapsTo(h) && synced(h)
+//@   ensures forall j int {h.a[j]} :: 0 < j && j < len(h.a) && (j-1)/2 >= h.indexChanged.lo ==> ordAt(h, j)
+
+// percolateUp(i): every edge is in order except the one above i and the ones below the original i
+// (MOVING), or nothing needs to move any more (SETTLED); see DESIGN.md 4.5.
+//@ pred moving(h, i, i0) = (forall j int {h.a[j]} :: 0 < j && j < len(h.a) && j != i && ((j-1)/2 != i0 || i != i0) ==> ordAt(h, j))
+//@   && (i > 0 ==> (forall c int {h.a[c]} :: 0 < c && c < len(h.a) && (c-1)/2 == i ==> !h.lessFn(h.a[c], h.a[(i-1)/2])))
+//@   && (i == i0 ==> row(h.a) == old(row(h.a)))
+//@ pred settled(h, i, i0) = i < i0 && (forall j int {h.a[j]} :: 0 < j && j < len(h.a) && (j-1)/2 != i0 ==> ordAt(h, j))
+//@   && ((forall c int {h.a[c]} :: 0 < c && c < len(h.a) && (c-1)/2 == i0 ==> ordAt(h, c)) || row(h.a) == old(row(h.a)))
+
+//@ func Heap.percolateUp
+//@   props C05 C15
+//@   requires 0 <= i && i < len(h.a) && fns(h) && mapsTo(h) && synced(h)
+//@   requires forall j int {h.a[j]} :: 0 < j && j < len(h.a) && j != i && (j-1)/2 != i ==> ordAt(h, j)
+//@   requires i > 0 ==> (forall c int {h.a[c]} :: 0 < c && c < len(h.a) && (c-1)/2 == i ==> !h.lessFn(h.a[c], h.a[(i-1)/2]))
+//@   modifies elems(h.a), h.indexChanged.N, h.indexChanged.f, h.indexChanged.g
+//@   loop 0: invariant 0 <= i && i <= old(i) && same(h) && mapsTo(h) && synced(h)
+//@   loop 0: invariant moving(h, i, old(i)) || settled(h, i, old(i))
+//@   ensures same(h) && mapsTo(h) && synced(h)
+//@   ensures forall j int {h.a[j]} :: 0 < j && j < len(h.a) && (j-1)/2 != i ==> ordAt(h, j)
+//@   ensures (forall c int {h.a[c]} :: 0 < c && c < len(h.a) && (c-1)/2 == i ==> ordAt(h, c)) || row(h.a) == old(row(h.a))
+
+//@ lemma heapMin @Heap.Peek C05 induct=j: fns(h) && heapOK(h) ==> forall j int {h.a[j]} :: 0 <= j && j < len(h.a) ==> !h.lessFn(h.a[j], h.a[0])
+
+//@ func Heap.Len
+//@   props C05
+//@   ensures result == len(h.a)
+
+//@ func Heap.Peek
+//@   props C05
+//@   requires wfH(h)
+//@   uses heapMin
+//@   panics when len(h.a) == 0
+//@   ensures result == h.a[0]
+//@   ensures forall j int {h.a[j]} :: 0 <= j && j < len(h.a) ==> !h.lessFn(h.a[j], result)
+
+//@ func Heap.Item
+//@   props C05
+//@   panics when i < 0 || i >= len(h.a)
+//@   ensures result == h.a[i]
+
+//@ func Heap.Push
+//@   props C05 C15
+//@   requires wfH(h)
+//@   requires h.indexChanged.tracks ==> (forall k int {h.a[k]} :: 0 <= k && k < len(h.a) ==> keyOf(h.a[k]) != keyOf(item))
+//@   modifies h.a, h.gen, elems(h.a), h.indexChanged.N, h.indexChanged.f, h.indexChanged.g, h.indexChanged.base, h.indexChanged.bn, h.indexChanged.gone
+//@   ghostinit h.indexChanged.base := lambda j int :: j == len(h.a) ? item : h.a[j]
+//@   ghostinit h.indexChanged.bn := len(h.a) + 1
+//@   ghostinit h.indexChanged.gone := -1
+//@   ghostinit h.indexChanged.f := lambda j int :: j
+//@   ghostinit h.indexChanged.g := lambda j int :: j
+//@   ensures wfH(h) && len(h.a) == old(len(h.a)) + 1 && h.gen > old(h.gen) && h.lessFn == old(h.lessFn) && h.indexChanged == old(h.indexChanged)
+//@   ensures mapsTo(h) && h.indexChanged.bn == old(len(h.a)) + 1 && h.indexChanged.gone == -1 && h.indexChanged.base[old(len(h.a))] == item
+//@   ensures forall j int {h.indexChanged.base[j]} :: 0 <= j && j < old(len(h.a)) ==> h.indexChanged.base[j] == old(h.a[j])
+
+//@ func Heap.Pop
+//@   props C05 C15
+//@   requires wfH(h)
+//@   uses heapMin
+//@   modifies h.a, h.gen, elems(h.a), h.indexChanged.N, h.indexChanged.f, h.indexChanged.g, h.indexChanged.base, h.indexChanged.bn, h.indexChanged.gone, h.indexChanged.lo
+//@   panics when len(h.a) == 0
+//@   ghostinit h.indexChanged.base := lambda j int :: h.a[j]
+//@   ghostinit h.indexChanged.bn := len(h.a)
+//@   ghostinit h.indexChanged.gone := 0
+//@   ghostinit h.indexChanged.f := lambda j int :: j
+//@   ghostinit h.indexChanged.g := lambda j int :: j
+//@   before call percolateDown[0]: ghost h.indexChanged.f := store(h.indexChanged.f, 0, old(len(h.a)) - 1)
+//@   before call percolateDown[0]: ghost h.indexChanged.g := store(h.indexChanged.g, old(len(h.a)) - 1, 0)
+//@   before call percolateDown[0]: ghost h.indexChanged.lo := 0
+//@   ensures wfH(h) && len(h.a) == old(len(h.a)) - 1 && h.gen > old(h.gen) && result == old(h.a[0]) && h.lessFn == old(h.lessFn) && h.indexChanged == old(h.indexChanged)
+//@   ensures mapsTo(h) && h.indexChanged.bn == old(len(h.a)) && h.indexChanged.gone == 0
+//@   ensures forall j int {h.indexChanged.base[j]} :: 0 <= j && j < old(len(h.a)) ==> h.indexChanged.base[j] == old(h.a[j])
+//@   ensures forall k int {h.a[k]} :: 0 <= k && k < len(h.a) ==> !h.lessFn(h.a[k], result)
+
+//@ func Heap.RemoveAt
+//@   props C05 C15
+//@   requires wfH(h)
+//@   modifies h.a, h.gen, elems(h.a), h.indexChanged.N, h.indexChanged.f, h.indexChanged.g, h.indexChanged.base, h.indexChanged.bn, h.indexChanged.gone, h.indexChanged.lo
+//@   panics when i < 0 || i >= len(h.a)
+//@   ghostinit h.indexChanged.base := lambda j int :: h.a[j]
+//@   ghostinit h.indexChanged.bn := len(h.a)
+//@   ghostinit h.indexChanged.gone := i
+//@   ghostinit h.indexChanged.f := lambda j int :: j
+//@   ghostinit h.indexChanged.g := lambda j int :: j
+//@   before call percolateUp[0]: ghost h.indexChanged.f := store(h.indexChanged.f, i, old(len(h.a)) - 1)
+//@   before call percolateUp[0]: ghost h.indexChanged.g := store(h.indexChanged.g, old(len(h.a)) - 1, i)
+//@   before call percolateDown[0]: ghost h.indexChanged.lo := 0
+//@   ensures wfH(h) && len(h.a) == old(len(h.a)) - 1 && h.gen > old(h.gen) && h.lessFn == old(h.lessFn) && h.indexChanged == old(h.indexChanged)
+//@   ensures mapsTo(h) && h.indexChanged.bn == old(len(h.a)) && h.indexChanged.gone == i
+//@   ensures forall j int {h.indexChanged.base[j]} :: 0 <= j && j < old(len(h.a)) ==> h.indexChanged.base[j] == old(h.a[j])
+
+//@ func Heap.UpdateAt
+//@   props C05 C15
+//@   requires wfH(h)
+//@   requires h.indexChanged.tracks ==> (forall k int {h.a[k]} :: 0 <= k && k < len(h.a) && k != i ==> keyOf(h.a[k]) != keyOf(item))
+//@   modifies h.gen, elems(h.a), h.indexChanged.N, h.indexChanged.f, h.indexChanged.g, h.indexChanged.base, h.indexChanged.bn, h.indexChanged.gone, h.indexChanged.lo
+//@   panics when i < 0 || i >= len(h.a)
+//@   ghostinit h.indexChanged.base := lambda j int :: j == i ? item : h.a[j]
+//@   ghostinit h.indexChanged.bn := len(h.a)
+//@   ghostinit h.indexChanged.gone := -1
+//@   ghostinit h.indexChanged.f := lambda j int :: j
+//@   ghostinit h.indexChanged.g := lambda j int :: j
+//@   before call percolateDown[0]: ghost h.indexChanged.lo := 0
+//@   ensures wfH(h) && len(h.a) == old(len(h.a)) && h.lessFn == old(h.lessFn) && h.indexChanged == old(h.indexChanged)
+//@   ensures mapsTo(h) && h.indexChanged.bn == len(h.a) && h.indexChanged.gone == -1 && h.indexChanged.base[i] == item
+//@   ensures forall j int {h.indexChanged.base[j]} :: 0 <= j && j < len(h.a) && j != i ==> h.indexChanged.base[j] == old(h.a[j])
+//@   ensures C15: h.gen > old(h.gen)
